@@ -131,7 +131,7 @@ prop(
 
 prop(
     "C13",
-    level_text="Kernel-checked theorems about the Lean model of the Huffman coder.  Finite table (kernel evaluation, 26 modules): for every number n = 2..256 of distinct literal values the weight shape redistribute(distribute(n), log2 n + 2) is computed without panic, has n weights >= 1, ascending from 1, Kraft sum 2^m with m <= 11.  General theorems (no bound): Kraft-complete weights give a complete prefix-free code of lengths m+1-w (codes_prefix_free); every table build_from_counts returns for a histogram with 2..256 non-zero entries is canonical, i.e. such a code of depth <= 11 (compressor_table_valid/_canon/_kraft); the decoder's rank-index construction yields the RFC's canonical table cell by cell (huf_table_eq_canonical) and every weight list that cannot form a complete code of depth <= 11 is rejected with the named error and never a panic (bad_weights_rejected, spec_rejected_is_rejected, build_table_never_panics); the direct weight description round-trips exactly (weights_roundtrip_direct) and so does the FSE-compressed one, UNCONDITIONALLY for the real FSE coder with the production parameters (weights_roundtrip_fse: composition of the C12 theorems normalize_valid, enc_table_eq_dec_table, write_read_table, encode_decode_interleaved over the shared BitIO/FSE models); one stream and four streams (split ceil(len/4), jump table) decode to exactly the literals, each stream exactly consumed, with table and treeless, for every canonical table and every literal string the encoder accepts (encode_decode_1stream, encode_decode_4streams, one_stream_exact, literals_roundtrip_compressor).  Partial: fse_weights_lt_128 - proved that the assert!(encoded_len < 128) is the ONLY panic site write_table can reach on a canonical table (fse_weights_lt_128_canon_partial); that the FSE payload is in fact shorter than 128 bytes is covered by the exhaustive sweep alphabet size x number of unused symbols through the real encoder (largest payload 69 bytes).",
+    level_text="Kernel-checked theorems about the Lean model of the Huffman coder.  Finite table (kernel evaluation, 26 modules): for every number n = 2..256 of distinct literal values the weight shape redistribute(distribute(n), log2 n + 2) is computed without panic, has n weights >= 1, ascending from 1, Kraft sum 2^m with m <= 11.  General theorems (no bound): Kraft-complete weights give a complete prefix-free code of lengths m+1-w (codes_prefix_free); every table build_from_counts returns for a histogram with 2..256 non-zero entries is canonical, i.e. such a code of depth <= 11 (compressor_table_valid/_canon/_kraft); the decoder's rank-index construction yields the RFC's canonical table cell by cell (huf_table_eq_canonical) and every weight list that cannot form a complete code of depth <= 11 is rejected with the named error and never a panic (bad_weights_rejected, spec_rejected_is_rejected, build_table_never_panics); the direct weight description round-trips exactly (weights_roundtrip_direct) and so does the FSE-compressed one, UNCONDITIONALLY for the real FSE coder with the production parameters (weights_roundtrip_fse: composition of the C12 theorems normalize_valid, enc_table_eq_dec_table, write_read_table, encode_decode_interleaved over the shared BitIO/FSE models); one stream and four streams (split ceil(len/4), jump table) decode to exactly the literals, each stream exactly consumed, with table and treeless, for every canonical table and every literal string the encoder accepts (encode_decode_1stream, encode_decode_4streams, one_stream_exact, literals_roundtrip_compressor).  fse_weights_lt_128 is proved in full (write_table_total_on_compressor_tables, fse_weights_lt_128_full_holds): write_table with the real FSE coder is total on every table build_from_counts returns - analytic size bound of the FSE-compressed weights from the normalised distribution alone (per-symbol worst-case bits AL - log2 p from the closed form of the FSE table, description <= 4+(AL+3)*symbols+7 bits) evaluated by the kernel for every alphabet size x number of unused symbols x dropped weight (118 664 normaliser runs in 91 generated modules, largest bound 632 of 1023 bits); hence literals_roundtrip_compressor has no 'or hits the assert' alternative.",
     engines=[{"name": "huf"}],
     modelled="weight-shape generation and depth limiting, code assignment, weight description writer/reader (direct and FSE-compressed; the decoder side uses the shared FSE decoder and reversed bit reader models and reports the individual FSETableError variants; the FSE encoder is a parameter that the correspondence feeds with the real bytes and that Model/EncCoders instantiates with the real coder), 1-/4-stream coders, decoder table construction incl. the state left behind by failed calls, HuffmanDecoder, decode_literals/decompress_literals are hand-written mirrors; constants and comparison operators come from the source text (Zstd/Gen/Huf.lean)",
     assumptions=[
